@@ -92,6 +92,15 @@ fn crypto_kx(
 ) -> Result<(), Error> {
     let mut keys = [0u8; 2 * CRYPTO_KX_SESSIONKEYBYTES];
 
+    // as in libsodium, refuse peer keys that produce an all-zero shared secret
+    let mut acc = 0u8;
+    for b in shared_secret.iter() {
+        acc |= *b;
+    }
+    if acc == 0 {
+        return Err(dryoc_error!("invalid public key: shared secret is all-zero"));
+    }
+
     let mut hasher = crypto_generichash_init(None, 2 * CRYPTO_KX_SESSIONKEYBYTES)?;
     crypto_generichash_update(&mut hasher, &shared_secret);
     shared_secret.zeroize();
